@@ -61,6 +61,10 @@ DelGroup(g) == /\ Bound /\ g \in groups /\ ParentsExist(g)
 Get(p) == /\ Bound /\ p \in LeafPaths /\ ParentsExist(p) /\ store[p] # Absent
           /\ lastGet' = store[p]
           /\ hist' = Append(hist, <<"get", p, "-">>) /\ UNCHANGED <<store, groups, siftType, witness>>
+\* cfg['a/b/c'], 'a/b/c' in cfg, cfg.get('a/b/c'), del cfg['a/b/c'] for a path that does not exist (the leaf is absent, or a
+\* group above it is - LeavesNeedParents): KeyError / False / the default, and NOTHING changes, which is what nested indexing does
+Miss(p) == /\ Bound /\ p \in LeafPaths /\ store[p] = Absent
+           /\ hist' = Append(hist, <<"miss", p, "-">>) /\ UNCHANGED <<store, groups, siftType, lastGet, witness>>
 \* to_yaml_file -> from_yaml_file ; to_yaml_text -> from_yaml_stream ; to_yaml_file -> open() -> from_yaml_stream
 RoundTrip(route) == /\ Bound
                     /\ store' = [p \in LeafPaths |-> Yamlise(store[p])]
@@ -73,7 +77,7 @@ Save(route) == /\ Bound
                /\ store' = [p \in LeafPaths |-> IF Len(p) >= 2 THEN Yamlise(store[p]) ELSE store[p]]
                /\ hist' = Append(hist, <<"save", <<route>>, "-">>) /\ UNCHANGED <<groups, siftType, lastGet, witness>>
 Next == \/ \E p \in LeafPaths : \E v \in Values : Set(p, v)
-        \/ \E p \in LeafPaths : DelLeaf(p) \/ Get(p)
+        \/ \E p \in LeafPaths : DelLeaf(p) \/ Get(p) \/ Miss(p)
         \/ \E g \in GroupPaths : DelGroup(g)
         \/ \E r \in {"file", "text", "handle"} : RoundTrip(r)
         \/ \E r \in {"file", "text"} : Save(r)
@@ -84,6 +88,7 @@ Spec == Init /\ [][Next]_vars
 WitnessUntouched == witness = InitStore
 LeavesNeedParents == \A p \in LeafPaths : store[p] # Absent => ParentsExist(p)
 DeleteExact == [][\A p \in LeafPaths : (hist' # hist /\ hist'[Len(hist')][1] = "del" /\ ~IsPrefix(hist'[Len(hist')][2], p)) => store'[p] = store[p]]_vars
+ReadsChangeNothing == [][(hist' # hist /\ hist'[Len(hist')][1] \in {"miss", "get"}) => (store' = store /\ groups' = groups /\ siftType' = siftType)]_vars
 RoundTripFaithful == [][(hist' # hist /\ hist'[Len(hist')][1] = "roundtrip") =>
                          (siftType' = siftType /\ groups' = groups /\ \A p \in LeafPaths : store'[p] = Yamlise(store[p]))]_vars
 RoundTripIdempotent == [][(hist' # hist /\ hist'[Len(hist')][1] = "roundtrip" /\ Len(hist) > 0 /\ hist[Len(hist)][1] = "roundtrip") => store' = store]_vars
